@@ -240,6 +240,7 @@ CHECKS["C09"] = {
               A("stream", "./checks/c09", "TestC09ServerStream", budget={"quick": 60, "thorough": 600}, hard_timeout={"quick": 240, "thorough": 1500}),
               A("messages", "./checks/c09", "TestC09Messages", budget={"quick": 60, "thorough": 900}, hard_timeout={"quick": 240, "thorough": 2000}),
               A("client", "./checks/c09", "TestC09Client", budget={"quick": 60, "thorough": 600}, hard_timeout={"quick": 240, "thorough": 1500}),
+              A("tls", "./checks/c09", "TestC09TLS", nshards=1, budget={"quick": 60, "thorough": 60}, hard_timeout={"quick": 240, "thorough": 240}),
               A("client-stream", "./checks/c09", "TestC09ClientStream", budget={"quick": 60, "thorough": 600}, hard_timeout={"quick": 240, "thorough": 1500}),
               A("client-bursts", "./checks/c13", "TestC13Stress", budget={"quick": 60, "thorough": 120}, hard_timeout={"quick": 240, "thorough": 600})],
 }
@@ -255,6 +256,7 @@ CHECKS["C15"] = {
             "A class is (event class => response); distinct_nontrivial counts those.",
     "parts": [A("vtx", "./checks/c15", "TestC15", budget={"quick": 90, "thorough": 1500}),
               A("rich", "./checks/c15", "TestC15Rich", budget={"quick": 60, "thorough": 900}),
+              A("tls", "./checks/c15", "TestC15TLS", nshards=1, budget={"quick": 60, "thorough": 60}),
               A("sched", "./checks/bsem", "TestC15Sched", overlay=True, gomaxprocs=1, budget={"quick": 90, "thorough": 1500})],
 }
 
